@@ -74,7 +74,7 @@ static int wipes_of_size(size_t n) {
 struct in_k7_keygen {
     struct dep_in dep; struct frame_in fr; struct seed_in s;
     unsigned coin; size_t key_size; uint8_t keybuf[32];
-    bool history; struct seed_in h_s; unsigned h_coin;     /* an arbitrary earlier derivation */
+    bool history; struct seed_in h_s; unsigned h_coin; struct dep_in h_dep;   /* an arbitrary earlier derivation, with its own dependency answers */
 };
 VF_DECL(k7_keygen)
 void k7_keygen(void) {
@@ -91,7 +91,9 @@ void k7_keygen(void) {
         seed_assume_inv(&IN.h_s); VASSUME(IN.h_coin < 2048);
         polyseed_data hd; seed_fill(&hd, &IN.h_s);
         uint8_t hk[32];
+        dep_install(&IN.h_dep);
         polyseed_keygen(&hd, (polyseed_coin)IN.h_coin, 32, hk);
+        dep_install(&IN.dep);
         dep_reset_logs();
     }
     polyseed_keygen(&d, (polyseed_coin)IN.coin, IN.key_size, key);
@@ -151,7 +153,7 @@ void k7_inject(void) {
 struct in_k8_crypt {
     struct dep_in dep; struct frame_in fr; struct seed_in s;
     char pw[PWMAX + 1];
-    bool history; struct seed_in h_s; char h_pw[4];        /* an arbitrary earlier password operation on another seed */
+    bool history; struct seed_in h_s; char h_pw[4]; struct dep_in h_dep;   /* an arbitrary earlier password operation on another seed */
 };
 VF_DECL(k8_crypt)
 void k8_crypt(void) {
@@ -186,7 +188,10 @@ void k8_crypt(void) {
         seed_assume_inv(&IN.h_s);
         IN.h_pw[3] = '\0';
         polyseed_data hd; seed_fill(&hd, &IN.h_s);
+        IN.h_dep.norm_out[DEP_STR_MAX] = '\0';
+        dep_install(&IN.h_dep);
         polyseed_crypt(&hd, IN.h_pw);
+        dep_install(&IN.dep);
         dep_reset_logs();
     }
     polyseed_crypt(&d, IN.pw);
@@ -229,7 +234,7 @@ void k8_crypt(void) {
 }
 
 /* ======================= K9 create ===================================== */
-struct in_k9_create { struct dep_in dep; struct frame_in fr; unsigned features; bool history; unsigned h_features; };
+struct in_k9_create { struct dep_in dep; struct frame_in fr; unsigned features; bool history; unsigned h_features; struct dep_in h_dep; };
 VF_DECL(k9_create)
 void k9_create(void) {
     struct in_k9_create IN = VF_IN(k9_create);
@@ -238,7 +243,9 @@ void k9_create(void) {
     polyseed_data dummy; polyseed_data* out = &dummy;
     if (IN.history) {          /* an arbitrary earlier creation */
         polyseed_data* hs = NULL;
+        dep_install(&IN.h_dep);       /* other clock value, random bytes, allocator outcome */
         (void)polyseed_create(IN.h_features, &hs);
+        dep_install(&IN.dep);
         dep_reset_logs();
     }
     polyseed_status st = polyseed_create(IN.features, &out);
@@ -288,7 +295,7 @@ void k9_create(void) {
 }
 
 /* ======================= P7 load ======================================= */
-struct in_p7_load { struct dep_in dep; struct frame_in fr; uint8_t buf[32]; bool history; uint8_t h_buf[32]; };
+struct in_p7_load { struct dep_in dep; struct frame_in fr; uint8_t buf[32]; bool history; uint8_t h_buf[32]; struct dep_in h_dep; };
 VF_DECL(p7_load)
 void p7_load(void) {
     struct in_p7_load IN = VF_IN(p7_load);
@@ -300,7 +307,9 @@ void p7_load(void) {
     if (IN.history) {          /* an arbitrary earlier load of another buffer */
         polyseed_storage hb; polyseed_data* hs = NULL;
         for (int i = 0; i < 32; ++i) hb[i] = IN.h_buf[i];
+        dep_install(&IN.h_dep);
         (void)polyseed_load(hb, &hs);
+        dep_install(&IN.dep);
         dep_reset_logs();
     }
     polyseed_status st = polyseed_load(st_in, &out);
